@@ -2,6 +2,7 @@ package props
 
 import (
 	"fmt"
+	"strings"
 	"time"
 
 	"verif/internal/explore"
@@ -331,6 +332,19 @@ func scalingCases(thorough bool) []*h.Case {
 			}
 			prog := graphProgram(f.n, adj, make([]int, f.n), 0, true)
 			out = append(out, caseFromProgram(id, prog, true, nil))
+			// the same shape with every node reached through a binding / a field selection / a struct provider
+			if back == 0 && (strings.HasPrefix(f.name, "ladder") || strings.HasPrefix(f.name, "complete")) && f.n <= 130 {
+				for _, kind := range []int{NBound, NField, NStruct} {
+					kinds := make([]int, f.n)
+					for i := range kinds {
+						kinds[i] = kind
+					}
+					prog := graphProgram(f.n, f.adj(f.n), kinds, 0, true)
+					// struct providers nest their fields: the run-time description of a diamond ladder would have 2^depth
+					// parts, so those are judged on wire's verdict (and termination) only
+					out = append(out, caseFromProgram(fmt.Sprintf("%s/allkind=%d", id, kind), prog, kind != NStruct, nil))
+				}
+			}
 		}
 	}
 	return out
